@@ -31,13 +31,13 @@ fn note(name: &'static str, a: u64, b: u64) {
 }
 
 // directed case "late cache fill": one marked reader is held right after its device read
-thread_local! { static HELD_READER: std::cell::Cell<bool> = const { std::cell::Cell::new(false) }; }
-static HOLD: Mutex<(bool, bool)> = Mutex::new((false, false)); // (reader is parked, reader may go on)
-static HOLD_CV: std::sync::Condvar = std::sync::Condvar::new();
+thread_local! { pub static HELD_READER: std::cell::Cell<bool> = const { std::cell::Cell::new(false) }; }
+pub static HOLD: Mutex<(bool, bool)> = Mutex::new((false, false)); // (reader is parked, reader may go on)
+pub static HOLD_CV: std::sync::Condvar = std::sync::Condvar::new();
 
 thread_local! { static HELD_AT_PIN: std::cell::Cell<bool> = const { std::cell::Cell::new(false) }; }
 
-fn point(name: &'static str) {
+pub fn point(name: &'static str) {
     if (name == "c08_unpinned" && HELD_READER.with(|h| h.get())) || (name == "c08_pinned" && HELD_AT_PIN.with(|h| h.get())) {
         let mut g = HOLD.lock().unwrap();
         g.0 = true;
@@ -63,12 +63,12 @@ fn point(name: &'static str) {
     }
 }
 
-fn key_of(k: u64) -> Vec<u8> {
+pub fn key_of(k: u64) -> Vec<u8> {
     format!("rk{k:02}").into_bytes()
 }
 
 /// value = "K<k>G<gen>L<len>|" + fill(k, gen)
-fn value_of(k: u64, gen: u64, len: usize) -> Vec<u8> {
+pub fn value_of(k: u64, gen: u64, len: usize) -> Vec<u8> {
     let mut v = format!("K{k}G{gen}L{len}|").into_bytes();
     let mut x = (k + 1).wrapping_mul(0x9E37_79B9_7F4A_7C15) ^ gen.wrapping_mul(0xD1B5_4A32_D192_ED03) | 1;
     while v.len() < len {
@@ -81,7 +81,7 @@ fn value_of(k: u64, gen: u64, len: usize) -> Vec<u8> {
 }
 
 /// Some((k, gen)) when `v` is exactly a value this engine wrote
-fn parse_value(v: &[u8]) -> Option<(u64, u64)> {
+pub fn parse_value(v: &[u8]) -> Option<(u64, u64)> {
     let bar = v.iter().position(|b| *b == b'|')?;
     let head = std::str::from_utf8(&v[..bar]).ok()?;
     let rest = head.strip_prefix('K')?;
